@@ -31,6 +31,9 @@ public:
 	void *in;
 	void *out;
 	Blocks *blocks;
+	Block* merge(Block *b, Constraint *c);
+	bool isActiveDirectedPathBetween(Variable const* u, Variable const* v) const;
+	Constraint* splitBetween(Variable* vl, Variable* vr, Block* &lb, Block* &rb);
 @BLOCK_EXTRA@
 };
 
@@ -69,6 +72,9 @@ public:
 	void *creator;
 };
 
+struct UnsatisfiableException {
+	std::vector<Constraint*> path;
+};
 struct UnsatisfiedConstraint {
 	UnsatisfiedConstraint(Constraint& c);
 	Constraint& c;
